@@ -148,3 +148,42 @@ Theorem C05_gen_validate_scalar_model : forall v d,
   GenTyping.validate_scalar v d = true <-> validate_scalar v d = true.
 Proof. intros v d. rewrite gen_validate_scalar_eq. tauto. Qed.
 Print Assumptions C05_gen_validate_scalar_model.
+
+(* ---- Part 3: C03 (a vector's reported dtype is truthful) for the generated kernels ---------------------------------- *)
+From Serif Require Import Spec.Truthful Proofs.Truthful Props.C03.
+
+(* what the code's infer_dtype answers for a value list is a dtype EVERY element of the list belongs to (None included:
+   the dtype is then nullable) - Vector(values), every arithmetic result, every column a join / aggregate / csv read builds *)
+Theorem C03_gen_inferred_dtype_holds_every_element : forall l x,
+  In x l -> belongs x (GenTyping.infer_dtype l) = true.
+Proof. intros l x H. rewrite gen_infer_dtype_eq. exact (infer_belongs l x H). Qed.
+Print Assumptions C03_gen_inferred_dtype_holds_every_element.
+
+(* an element belongs to a dtype exactly when the code's promote_with leaves the dtype as it is: a write that does not
+   change the schema stores a value the schema already covers, one that does change it widens the schema to cover it *)
+Theorem C03_gen_belongs_iff_promotion_fixpoint : forall x d,
+  belongs x d = true <-> GenTyping.promote_with d x = d.
+Proof. intros x d. rewrite gen_promote_with_eq. exact (C03_belongs_iff_promotion_fixpoint x d). Qed.
+Print Assumptions C03_gen_belongs_iff_promotion_fixpoint.
+
+Theorem C03_gen_promoted_dtype_holds_the_value : forall x d, belongs x (GenTyping.promote_with d x) = true.
+Proof.
+  intros x d. apply (proj2 (C03_gen_belongs_iff_promotion_fixpoint x (GenTyping.promote_with d x))).
+  apply C04_gen_promote_idempotent.
+Qed.
+Print Assumptions C03_gen_promoted_dtype_holds_the_value.
+
+(* ... and keeps holding what it held: promotion never makes an element a stranger *)
+Theorem C03_gen_promotion_keeps_members : forall x y d,
+  belongs y d = true -> belongs y (GenTyping.promote_with d x) = true.
+Proof.
+  intros x y d H. apply (proj2 (C03_gen_belongs_iff_promotion_fixpoint y (GenTyping.promote_with d x))).
+  rewrite C04_gen_promote_commutes. f_equal. apply (proj1 (C03_gen_belongs_iff_promotion_fixpoint y d)). exact H.
+Qed.
+Print Assumptions C03_gen_promotion_keeps_members.
+
+(* the code's validate_scalar accepts only what belongs *)
+Theorem C03_gen_validate_accepts_only_members : forall x d,
+  GenTyping.validate_scalar x d = true -> belongs x d = true.
+Proof. intros x d. rewrite gen_validate_scalar_eq. exact (proj1 (C03_belongs_iff_validate x d)). Qed.
+Print Assumptions C03_gen_validate_accepts_only_members.
